@@ -62,16 +62,39 @@ def gen_program(rng: random.Random) -> list[dict]:
             act['set'] = '1:*'
             act['mailbox'] = name
         elif kind == 'search':
-            act['keys'] = [rng.choice(['SUBJECT', 'FROM', 'TEXT', 'BODY']),
-                           ['str', rng.choice(NEEDLES)]]
+            r = rng.random()
+            if r < 0.5:
+                act['keys'] = [rng.choice(['SUBJECT', 'FROM', 'TEXT',
+                                           'BODY']),
+                               ['str', rng.choice(NEEDLES)]]
+            elif r < 0.75:
+                # date = date-text / DQUOTE date-text DQUOTE
+                act['keys'] = [rng.choice(['SINCE', 'BEFORE', 'ON',
+                                           'SENTSINCE', 'SENTBEFORE',
+                                           'SENTON']),
+                               ['date', rng.choice(['15-Jan-2024',
+                                                    '1-Jan-2024',
+                                                    '16-Jan-2024'])]]
+            else:
+                act['keys'] = ['HEADER',
+                               ['str', rng.choice(['Subject', 'X-Token',
+                                                   'from'])],
+                               ['str', rng.choice(NEEDLES + [''])]]
         elif kind == 'store':
             act['set'] = '1:*'
             act['op'] = rng.choice(['+', '-'])
             act['flags'] = [rng.choice(['\\Seen', '\\Flagged', '\\Deleted'])]
         elif kind == 'fetch':
             act['set'] = '1:*'
-            act['attrs'] = rng.choice([['FLAGS'], ['UID', 'FLAGS'],
-                                       ['RFC822.SIZE']])
+            if rng.random() < 0.5:
+                # header field names are astrings
+                act['hdr'] = [rng.choice(['', '.NOT']), rng.sample(
+                    ['Subject', 'X-Token', 'From', 'date', 'TO', 'X-None'],
+                    rng.randint(1, 3))]
+                act['attrs'] = None
+            else:
+                act['attrs'] = rng.choice([['FLAGS'], ['UID', 'FLAGS'],
+                                           ['RFC822.SIZE']])
         prog.append(act)
     return prog
 
@@ -94,12 +117,23 @@ def spell(prog: list[dict], rng: random.Random, plain: bool) -> list[dict]:
                 if rng.random() < 0.3:
                     a['eager'] = True
             if a['kind'] == 'search':
-                a['keys'] = [case_variant(a['keys'][0], rng),
-                             [rng.choice(['quoted', 'lit', 'litplus']),
-                              a['keys'][1][1]]]
+                keys = [case_variant(a['keys'][0], rng)]
+                for typ, val in a['keys'][1:]:
+                    if typ == 'date':
+                        keys.append(val if rng.random() < 0.5
+                                    else ['quoted', val])
+                    elif val and rng.random() < 0.25 and \
+                            all(c.isalnum() or c == '-' for c in val):
+                        keys.append(val)              # as an atom
+                    else:
+                        keys.append([rng.choice(['quoted', 'lit',
+                                                 'litplus']), val])
+                a['keys'] = keys
             if a['kind'] == 'store':
                 a['flags'] = [case_variant(f, rng) for f in a['flags']]
-            if a['kind'] == 'fetch':
+            if a['kind'] == 'fetch' and a.get('hdr'):
+                a['attrs'] = header_fields(a['hdr'], rng)
+            elif a['kind'] == 'fetch':
                 a['attrs'] = [case_variant(x, rng) for x in a['attrs']]
             if a.get('mailbox', '').upper() == 'INBOX':
                 a['mailbox_raw'] = case_variant('inbox', rng)
@@ -109,8 +143,32 @@ def spell(prog: list[dict], rng: random.Random, plain: bool) -> list[dict]:
             a['spelling'] = 'auto'
             if a['kind'] == 'append':
                 a['literal'] = 'litplus'
+            if a['kind'] == 'fetch' and a.get('hdr'):
+                a['attrs'] = header_fields(a['hdr'], None)
+            if a['kind'] == 'search':
+                a['keys'] = [a['keys'][0]] + [
+                    val if typ == 'date' else ['quoted', val]
+                    for typ, val in a['keys'][1:]]
         out.append(a)
     return out
+
+
+def header_fields(hdr, rng) -> str:
+    """BODY.PEEK[HEADER.FIELDS[.NOT] (...)] with every field name spelled
+    as atom, quoted string or non-synchronizing literal (plain: atoms)."""
+    suffix, names = hdr
+    parts = []
+    for name in names:
+        how = rng.choice(['atom', 'quoted', 'litplus']) if rng else 'atom'
+        if rng is not None:
+            name = case_variant(name, rng)
+        if how == 'atom':
+            parts.append(name)
+        elif how == 'quoted':
+            parts.append('"%s"' % name)
+        else:
+            parts.append('{%d+}\r\n%s' % (len(name), name))
+    return 'BODY.PEEK[HEADER.FIELDS%s (%s)]' % (suffix, ' '.join(parts))
 
 
 def normal(resp) -> tuple:
